@@ -107,7 +107,11 @@ def compare(vec, line, v, pid, what, extra_key=""):
     elif vec["op"] in ("get", "nullget", "badget", "payload"):
         if ret != hexs(vec["ret"]):
             ok = rep("ret", "%s: returned %s, specification says %s (buffer %s)" % (what, ret, hexs(vec["ret"]), hexs(vec["pre"])))
-    if canary != "0":
+    if canary == "2":
+        ok = rep("errno", "%s: the call changed errno (the stale value it found there is not its to touch, and the specification has no such output)" % what)
+    elif canary == "3":
+        ok = rep("ambient", "%s: the call consulted ambient process state (environment, clock, random generator, terminal or locale)" % what)
+    elif canary != "0":
         ok = rep("canary", "%s: memory outside the buffer was modified" % what)
     return ok
 
